@@ -258,6 +258,37 @@ structure Update where
 def Update.render (u : Update) : List Tok :=
   k tkUpdate :: renderName u.ks u.table (idt u.setKw :: u.ops.renderElems u.tail)
 
+/-- a relation of a WHERE clause: `column <op> term` (op one of `= < <= > >= !=`, by its token kind) or `column IN (terms)` -/
+inductive Rel where
+  | cmp (col : Ident) (op : Nat) (t : Term)
+  | inList (col : Ident) (ts : Terms)
+
+def Rel.render : Rel → List Tok → List Tok
+  | .cmp c op t, rest => idt c :: k op :: t.render rest
+  | .inList c ts, rest => idt c :: k tkIn :: k tkLparen :: ts.renderElems (k tkRparen :: rest)
+
+def Rel.nonIdem : Rel → Bool
+  | .cmp _ _ t => t.nonIdem
+  | .inList _ ts => ts.nonIdem
+
+/-- relations joined by AND -/
+def renderRels : List Rel → List Tok → List Tok
+  | [], rest => rest
+  | [r], rest => r.render rest
+  | r :: r2 :: more, rest => r.render (k tkAnd :: renderRels (r2 :: more) rest)
+
+/-- `UPDATE [ks.]table SET c = term, … WHERE rel AND … <tail>` -/
+structure UpdateW where
+  ks : Option Ident
+  table : Ident
+  setKw : Ident
+  ops : Assigns
+  rels : List Rel
+  tail : List Tok
+
+def UpdateW.render (u : UpdateW) : List Tok :=
+  k tkUpdate :: renderName u.ks u.table (idt u.setKw :: u.ops.renderElems (k tkWhere :: renderRels u.rels u.tail))
+
 /-- the lexer `L` yields the tokens `ts` from position `p` on, one position per token -/
 def At (L : Lexer) : Nat → List Tok → Prop
   | _, [] => True
